@@ -54,7 +54,10 @@ pub fn boundary_words() -> Vec<U256> {
 
 mod c01;
 mod c03;
+mod c05;
+mod c06;
 mod c07;
+mod c07_diff;
 mod c08;
 mod c09;
 mod c10;
@@ -62,3 +65,4 @@ mod c12;
 mod c17;
 mod c18;
 mod c19;
+mod c20;
